@@ -64,6 +64,14 @@ class Oracle:
         self.foreign = {}  # path -> (mtime, bytes) of files created by the user in the cache directory
 
     # ------------------------------------------------------------------ util
+    def k_of(self, path):
+        """key owning a cache file: learned from returned paths; documented naming as fallback"""
+        k = self.owner_of_path.get(path)
+        return k if k is not None else self.w.key_of_path.get(path)
+
+    def p_of(self, key):
+        return self.path_seen.get(key) or self.w.path_of_key.get(key)
+
     def _v(self, clause, msg, obs):
         prop = "C19" if self.c19 else "C18"
         return (prop, clause, msg, obs.op["id"])
@@ -132,8 +140,10 @@ class Oracle:
             if isinstance(obs.exc, ValueError) and not isinstance(obs.exc, _json.JSONDecodeError) and not obs.op.get("evict"):
                 # documented: directory larger than the configured size and no eviction on start-up
                 total = sum(e[0] for e in pre_files.values())
-                lim = self.persisted_max if self.persisted_max is not None else obs.op.get("size") or w.knobs["max_bytes"]
-                if total > min(lim, obs.op.get("size") or lim) - 2:
+                arg = obs.op.get("size") or w.knobs["max_bytes"]
+                lim = self.persisted_max if self.persisted_max is not None else arg
+                # either the persisted size or the constructor argument may be the one in force
+                if total > min(lim, arg) - 2:
                     self.probe("reopen_oversize_valueerror")
                     return None
             if self.c19 and self.tainted:
@@ -148,6 +158,20 @@ class Oracle:
             if not any(abs(obs.max_bytes - x) <= 2 for x in (self.persisted_max, arg)):
                 return self._v("18e", "after reopen the configured size is %d; the persisted configuration says %d and the "
                                "constructor argument %d" % (obs.max_bytes, self.persisted_max, arg), obs)
+        if not self.c19:
+            # the size in force must be the one the configuration file states after the open (whichever of
+            # persisted value and constructor argument won): two views of one setting
+            ent = obs.post.get(self.cd + "/file_cache_config.json")
+            if ent is not None:
+                import json as _json
+                try:
+                    cfg = _json.loads(ent[4].decode())
+                except ValueError:
+                    cfg = None
+                if isinstance(cfg, dict) and isinstance(cfg.get("size_gb"), (int, float)):
+                    if abs(cfg["size_gb"] * 1e9 - obs.max_bytes) > 2:
+                        return self._v("18e", "after opening the cache the size in force is %d bytes but file_cache_config.json "
+                                       "states %.0f" % (obs.max_bytes, cfg["size_gb"] * 1e9), obs)
         self.max_bytes = obs.max_bytes
         self.persisted_max = obs.max_bytes
         reg = {i for i, b in enumerate(obs.in_cache) if b}
@@ -156,8 +180,11 @@ class Oracle:
         if v:
             return v
         if not self.c19:
-            on_disk = {w.key_of_path[p] for p in post_files if p in w.key_of_path}
-            if reg != on_disk:
+            # which key a file belongs to is learned from what requests returned (the documented
+            # prefix+md5(uri)+postfix naming is only a fallback), so a different naming scheme is not an alarm
+            on_disk = {self.k_of(p) for p in post_files if self.k_of(p) is not None}
+            known = {k for k in range(len(w.keys)) if self.p_of(k) in post_files or k in self.path_seen}
+            if (reg & known) != (on_disk & known) or len(reg) > len(post_files):
                 return self._v("18d", "after (re)open in_cache says %s but cache files on disk are for keys %s"
                                % (sorted(reg), sorted(on_disk)), obs)
             if obs.length != len(post_files):
@@ -196,7 +223,7 @@ class Oracle:
         survivors = {p: stamp(e) for p, e in post_files.items() if p not in current}
         vmax = max(st for _, st in evicted)
         for p, st in survivors.items():
-            k = w.key_of_path.get(p)
+            k = self.k_of(p)
             if k is not None and k in self.volatile:
                 continue
             if fstamp(st) < fstamp(vmax):
@@ -246,7 +273,7 @@ class Oracle:
             # (a process that dies between the validator's verdict and acting on it cannot remember the
             # verdict: no implementation can avoid serving that file after the restart)
             for k in rejected:
-                p0 = self.path_seen.get(k) or w.path_of_key.get(k)
+                p0 = self.p_of(k)
                 if p0 in pre_files:
                     self.rejected_since[k] = {"id": (pre_files[p0][4], pre_files[p0][5]), "path": p0}
         if obs.busy_after > 0:
@@ -269,7 +296,7 @@ class Oracle:
                 return v
             new_reg = {i for i, b in enumerate(obs.in_cache) if b}
             lost = (reg - new_reg) - rejected - self._evicted_keys(obs, post_files)
-            if lost:
+            if len(lost) > self._unattributed_evictions(obs, post_files):
                 return self._v("19c", "keys %s were cached before the failed request and are gone after it" % sorted(lost), obs)
             self.registered = new_reg
             self.pending_retry |= set(misses)
@@ -282,7 +309,7 @@ class Oracle:
             return self._v("18a" if not self.c19 else "19a", "request returned %r, not a list of paths" % (res,), obs)
 
         # --- align the result with the request (omissions only for failed keys) -----
-        served = self._align(req, res, maybe_failed, allow_missing)
+        served = self._align(req, res, maybe_failed, allow_missing, post_files)
         if served is None:
             if not maybe_failed:
                 return self._v("18a" if not self.c19 else "19a",
@@ -355,6 +382,9 @@ class Oracle:
         if self.c19:
             ov = obs.op.get("val") or []
             consulted = {key for (_op, key, verdict) in obs.validator_calls}
+            if None in consulted:
+                req = list(req)
+                consulted = set(range(len(w.keys)))  # a call could not be attributed to a key: rule not applicable
             for pos, k in enumerate(req):
                 has_val = ov[pos] if pos < len(ov) and ov[pos] is not None else w.keys[k].get("val")
                 if has_val and k in reg and k not in consulted:
@@ -399,7 +429,7 @@ class Oracle:
                 return self._v("18d", "len(cache)=%d but %d cache files are on disk" % (obs.length, len(post_files)), obs)
         else:
             lost = (reg - new_reg) - evicted_keys - rejected
-            if lost:
+            if len(lost) > self._unattributed_evictions(obs, post_files):
                 return self._v("19c", "keys %s were cached before the request and are gone after it" % sorted(lost), obs)
             for k in [k for i, k in enumerate(req) if served[i] is not None]:
                 if k not in new_reg:
@@ -443,7 +473,7 @@ class Oracle:
             for p in current_paths:
                 ent = post_files[p]
                 if fstamp(stamp(ent)) < fstamp(obs.clock_start):
-                    k = w.key_of_path.get(p)
+                    k = self.k_of(p)
                     return self._v("18f-iii", "key %s was served but its recency stamp %d is older than the request (%d): "
                                    "a hit does not refresh recency" % (k, stamp(ent), obs.clock_start), obs)
         # --- retry bookkeeping ---------------------------------------------------------
@@ -461,7 +491,7 @@ class Oracle:
             return True
         return all(f["kind"] in NOTFOUND_KINDS for f in failing if f.get("_key") == k)
 
-    def _align(self, req, res, maybe_failed, allow_missing):
+    def _align(self, req, res, maybe_failed, allow_missing, post_files=None):
         """Match result paths to request positions: the result must be the request with some positions
         left out, and only positions whose key may have failed can be left out.  Returns a list with a
         path or None per request position, or None if no such matching exists."""
@@ -483,9 +513,11 @@ class Oracle:
                 if i in sk:
                     out.append(None)
                     continue
-                known = self.path_seen.get(k) or w.path_of_key.get(k)
+                known = self.p_of(k)
                 if res[j] == known:
-                    score += 1
+                    score += 2
+                elif post_files is not None and res[j] in post_files and post_files[res[j]][3] in w.acceptable_bytes(k):
+                    score += 1  # unknown naming: the content tells which key a path belongs to
                 out.append(res[j])
                 j += 1
             if score > best_score:
@@ -496,9 +528,19 @@ class Oracle:
         w = self.w
         out = set()
         for (p, ino, at, mt, size, how) in obs.unlinks:
-            if how == "unlink" and p not in post_files and p in w.key_of_path:
-                out.add(w.key_of_path[p])
+            if how == "unlink" and p not in post_files and self.k_of(p) is not None:
+                out.add(self.k_of(p))
         return out
+
+    def _unattributed_evictions(self, obs, post_files):
+        """cache files that were deleted and whose key is unknown (their path was never returned and does
+        not follow the documented naming): each may explain one entry that disappeared"""
+        n = 0
+        for (p, ino, at, mt, size, how) in obs.unlinks:
+            if how == "unlink" and p not in post_files and posixpath.dirname(p) == self.cd and \
+                    is_cache_name(posixpath.basename(p)) and self.k_of(p) is None:
+                n += 1
+        return n
 
     def _bystanders(self, obs, reg, requested, pre_files, post_files, current_paths):
         """Files of keys that were cached and not requested must be byte-identical if still present."""
@@ -506,7 +548,7 @@ class Oracle:
         for k in reg:
             if k in requested or k in self.volatile:
                 continue
-            p = self.path_seen.get(k) or w.path_of_key.get(k)
+            p = self.p_of(k)
             pre, post = pre_files.get(p), post_files.get(p)
             if pre is None or post is None:
                 continue
@@ -556,7 +598,7 @@ class Oracle:
                 return None
             return self._v("18d" if not self.c19 else "19d-poison", "remove(key %d) raised %r" % (k, obs.exc), obs)
         new_reg = {i for i, b in enumerate(obs.in_cache) if b}
-        p = self.path_seen.get(k) or w.path_of_key.get(k)
+        p = self.p_of(k)
         if not self.c19:
             if new_reg != reg - {k}:
                 return self._v("18d", "after remove(key %d) in_cache is true for %s, expected %s" % (k, sorted(new_reg), sorted(reg - {k})), obs)
@@ -581,9 +623,9 @@ class Oracle:
         post_files = cache_files(obs.post, self.cd)
         if obs.exc is not None:
             import json as _json
-            if (self.c19 and self.tainted and w_is_module(self.w) and isinstance(obs.exc, ValueError)
-                    and not isinstance(obs.exc, _json.JSONDecodeError)
-                    and sum(e[0] for e in post_files.values()) > (self.persisted_max or 0) - 2):
+            if (w_is_module(self.w) and isinstance(obs.exc, ValueError)
+                    and not isinstance(obs.exc, _json.JSONDecodeError) and post_files
+                    and sum(e[0] for e in post_files.values()) > min(self.persisted_max or 0, self.w.knobs["max_bytes"]) - 2):
                 # module-level purge = delete_cache + create_cache: the re-creation adopted orphaned complete
                 # files of an earlier failed request and the directory exceeds its limit: the documented error
                 self.probe("reopen_oversize_valueerror")
